@@ -67,8 +67,10 @@ class GroupingService:
         Returns:
             DataFrame with duplicate values replaced with null
         """
-        # Create a mask for rows where the value is different from the previous row
-        is_first_occurrence = (df[column] != df[column].shift(1)) | (
+        # Create a mask for rows where the value is different from the previous row.
+        # The comparison is null-aware: null is a value of its own, equal to null
+        # and different from every non-null value.
+        is_first_occurrence = df[column].ne_missing(df[column].shift(1)) | (
             pl.int_range(df.height) == 0
         )  # First row is always shown
 
@@ -112,23 +114,30 @@ class GroupingService:
             # First row condition
             conditions.append(pl.int_range(df.height) == 0)
 
-            # Higher-level columns changed condition
+            # Higher-level columns changed condition (null-aware: null is a
+            # value of its own, different from every non-null value)
             for higher_col in group_by[:i]:
-                conditions.append(pl.col(higher_col) != pl.col(higher_col).shift(1))
+                conditions.append(
+                    pl.col(higher_col).ne_missing(pl.col(higher_col).shift(1))
+                )
 
             # This column changed condition
-            conditions.append(pl.col(column) != pl.col(column).shift(1))
+            conditions.append(pl.col(column).ne_missing(pl.col(column).shift(1)))
 
             # Combine all conditions with OR
             should_show = conditions[0]
             for condition in conditions[1:]:
                 should_show = should_show | condition
 
-            # Apply suppression
+            # Apply suppression. The conditions are evaluated on the original
+            # values (df): a level must not see the blanks already written into
+            # the higher-level columns of result_df.
             suppressed_values = (
                 pl.when(should_show).then(pl.col(column)).otherwise(None)
             )
-            result_df = result_df.with_columns(suppressed_values.alias(column))
+            result_df = result_df.with_columns(
+                df.select(suppressed_values.alias(column)).to_series()
+            )
 
         return result_df
 
